@@ -9,8 +9,8 @@ use serde_json::{json, Map, Value};
 
 pub struct C08;
 
-const RATIOS: [f64; 7] = [1.0 / 16.0, 0.37, 0.5, 1.0, 1.7, 4.1, 16.0];
-const CHUNKS: [usize; 4] = [1, 5, 32, 257];
+const RATIOS: [f64; 10] = [1.0 / 16.0, 0.1, 0.37, 0.5, 147.0 / 160.0, 1.0, 1.7, 2.5, 4.1, 16.0];
+const CHUNKS: [usize; 5] = [1, 2, 5, 32, 257];
 
 #[derive(Clone, Debug)]
 struct Item {
@@ -20,7 +20,7 @@ struct Item {
 }
 
 fn items(tier: Tier) -> Vec<Item> {
-    let ratios: Vec<f64> = if tier == Tier::Quick { vec![0.37, 1.0, 4.1] } else { RATIOS.to_vec() };
+    let ratios: Vec<f64> = if tier == Tier::Quick { vec![1.0 / 16.0, 0.37, 0.5, 1.0, 1.7, 4.1, 16.0] } else { RATIOS.to_vec() };
     let mut v = Vec::new();
     for degree in Degree::ALL {
         for &ratio in &ratios {
@@ -222,7 +222,7 @@ impl Check for C08 {
     fn run_item(&self, tier: Tier, idx: usize, journal: Option<&JournalFile>) -> Result<Value, String> {
         let item = items(tier).into_iter().nth(idx).ok_or("no item")?;
         let mut acc = Acc { evals: 0, nontrivial: 0, found: vec![], outcomes: Default::default(), worst_exact: 0.0, sharp: vec![], worst_tone: 0.0 };
-        let chunks: Vec<usize> = if tier == Tier::Quick { vec![1, 32] } else { CHUNKS.to_vec() };
+        let chunks: Vec<usize> = if tier == Tier::Quick { vec![1, 5, 32, 257] } else { CHUNKS.to_vec() };
         for chunk in chunks {
             one::<f64>(&mut acc, &item, chunk, journal)?;
             one::<f32>(&mut acc, &item, chunk, journal)?;
